@@ -215,9 +215,10 @@ example : parseEndTag P0 none (BS.ofS "</h1>x") = .ok (.et (BS.ofS "h1")) 5 none
 
 /-- **comments round-trip** (partial: bodies without `>`, or without `-`). `parse_comment` on `<!--body-->` calls
     `handle_comment(body)` and returns the index just after the `>`. Dashes in the body are harmless as long as no `>`
-    follows (`commentclose = --\s*>` needs one): `<!--a--b--->` gives `a--b-`. What is missing for the exact
-    characterisation: bodies that contain `>` and `-` but no match of `--\s*>` (with one, CPython ends the comment
-    early: `<!--a-- >b-->` gives `a`). -/
+    follows (`commentclose = --\s*>` needs one): `<!--a--b--->` gives `a--b-`. Kept for its users; both cases are
+    instances of the exact characterisation `comment_roundtrip` / `comment_roundtrip_iff` above (bodies that contain `>`
+    and `-` are fine as long as `--\s*>` matches nowhere; with a match CPython ends the comment early:
+    `<!--a-- >b-->` gives `a`, `comment_ends_at_first_close`). -/
 theorem comment_roundtrip_partial (cd : Option PStr) (body rest : PStr)
     (hb : (∀ x ∈ body, x ≠ 62) ∨ (∀ x ∈ body, x ≠ 45)) :
     parseComment cd (writeComment body ++ rest) = .ok (.cm body) (writeComment body).length cd := by
@@ -369,6 +370,8 @@ theorem chardata_whole_text (P : Params) (text : PStr) (ht : TextOK text) (hne :
 
 example : TextOK (BS.ofS "a>b;\n") ∧ BS.ofS "a>b;\n" ≠ [] := by decide
 example : ¬ TextOK (BS.ofS "a& b") := by decide
+example : isPlain 38 = false ∧ isPlain 60 = false ∧ TextOK (BS.ofS "a") := by decide
+example : (step P0 false ⟨BS.ofS "a& b<i>", (1, 0), none⟩).1.head? = some ⟨.data (BS.ofS "a"), BS.ofS "a", (1, 0)⟩ := by decide
 example : (run P0 (BS.ofS "a& b")).evs.map (·.tok) = [.data (BS.ofS "a"), .data (BS.ofS "&"), .data (BS.ofS " b")] := by decide
 example : (run P0 (BS.ofS "<")).evs.map (·.tok) = [.data (BS.ofS "<")] := by decide
 
